@@ -2,6 +2,8 @@
 EnumTryAs, EnumDiscriminants): Rust renderer of the observers."""
 from .defs import Item, Variant, Field, render_item, pattern, rust_str, hx
 from . import render as RR
+import os as _os
+_HOSTILE_ENV = [x for x in _os.environ.get("VERIF_DEV_HOSTILE", "").split(",") if x] or None      # development probe only
 from . import strings as S
 
 HP_STRUCTS = r'''
@@ -27,6 +29,9 @@ def render_structs(k, it: Item, meta, cfg, strum_path="strum"):
             dl.append(std)
     bounds = meta.get("bounds", "Default + Clone + PartialEq + core::fmt::Debug" if it.tparams else "")
     src = [render_item(it, dl, bounds=bounds)]
+    if (getattr(it, "hostile", None) or (_HOSTILE_ENV if not it.tparams else None)):
+        from .defs import hostile_wrap
+        src = [hostile_wrap(src[0], getattr(it, "hostile", None) or _HOSTILE_ENV)]
     ty = RR.inst(it)
     E = RR.turbofish(it)
     src.append(RR.vobs_fn(it))
